@@ -1,9 +1,9 @@
-// Repro for finding `named_dest_name_object` (unit dest; ISO 32000-1 12.3.2.3 "Named destinations").
+// Repro for OBSERVATION (not claimed) `named_dest_name_object` (unit dest; ISO 32000-1 12.3.2.3 "Named destinations").
 // Copy to pdf/tests/ of a scratch copy of /repo and run
 //   CARGO_TARGET_DIR=/tmp/dest_target cargo test --offline -p pdf --test named_dest_name_object_repro
 // Pinned tree: `a_name_object_is_a_named_destination` FAILS with
 //   Try { .. source: UnexpectedPrimitive { expected: "Array", found: "Name" } };  the string control passes.
-// With findings/named_dest_name_object_fix.diff both pass.
+// With findings/named_dest_name_object_feature.diff both pass.
 use pdf::object::*;
 use pdf::primitive::{PdfString, Primitive};
 
